@@ -118,7 +118,9 @@ pub async fn run_case(c: Case) -> Result<CaseInfo, Failure> {
             Kind::PubRel => {
                 let id = 100 + nrel;
                 nrel += 1;
-                (P5::PubRel(s5::Ack5 { pid: id, ..Default::default() }), (7, id), (G_CTL, nc))
+                // v5: every second PUBREL carries the (valid) reason code 0x92 and a reason string: its PUBCOMP is due all the same
+                let a = if c.role.is_v5() && nrel % 2 == 0 { s5::Ack5 { pid: id, reason: 0x92, reason_string: Some("gone".into()), ..Default::default() } } else { s5::Ack5 { pid: id, ..Default::default() } };
+                (P5::PubRel(a), (7, id), (G_CTL, nc))
             }
             Kind::Sub => (P5::Subscribe(s5::Sub5 { pid, filters: vec![("a/+".into(), s5::SubOpts { qos: 1, ..Default::default() })], ..Default::default() }), (9, pid), (G_CTL, nc)),
             Kind::Unsub => (P5::Unsubscribe(s5::Unsub5 { pid, filters: vec!["a/+".into()], ..Default::default() }), (11, pid), (G_CTL, nc)),
